@@ -174,7 +174,7 @@ class Term(ItemSequenceT[T]):
                 return tuple(_filter_items(((elem2, exp2), (elem1, exp1))))
             # least relevant case: 2 numeric elements
             if isinstance(elem1, Rational) and isinstance(elem2, Rational):
-                num: Rational = elem1 ** exp1 * elem2 ** exp2
+                num: Rational = _num_pow(elem1, exp1) * _num_pow(elem2, exp2)
                 if num != 1:
                     return (num, 1),
         # more than 2 items or number of items unknown:
@@ -227,7 +227,7 @@ class Term(ItemSequenceT[T]):
             else:  # numerical elements
                 group_it = cast(Iterator[Tuple[int, Tuple[Rational, int]]],
                                 group_it)
-                num_elem = reduce(mul, (elem ** exp
+                num_elem = reduce(mul, (_num_pow(elem, exp)
                                         for _, (elem, exp) in group_it),
                                   num_elem)
         if num_elem != 1:
@@ -270,7 +270,7 @@ class Term(ItemSequenceT[T]):
             pass
         else:
             if isinstance(elem, Rational):
-                return cast(Rational, elem ** exp)
+                return _num_pow(elem, exp)
         return None
 
     def split(self, dflt_num: Rational = ONE) \
@@ -408,6 +408,13 @@ class Term(ItemSequenceT[T]):
 
 
 # helper functions
+
+def _num_pow(num: Rational, exp: int) -> Rational:
+    """Return `num` ** `exp` as exact rational (int ** -n would be a float)."""
+    if exp < 0 and isinstance(num, int):
+        return cast(Rational, ONE / num ** -exp)
+    return cast(Rational, num ** exp)
+
 
 def _filter_items(items: ItemIterableT[T]) \
         -> Generator[ItemT[T], None, None]:
